@@ -1,1 +1,79 @@
+/-
+EmdProofs.Basic — lemmas about association lists.
+-/
 import EmdModel
+
+namespace EmdModel
+
+theorem alookup_append {β : Type} (n : String) (l r : List (String × β)) :
+    alookup n (l ++ r) = match alookup n l with
+      | some v => some v
+      | none => alookup n r := by
+  induction l with
+  | nil => simp [alookup]
+  | cons kv l ih =>
+    obtain ⟨k, v⟩ := kv
+    simp only [List.cons_append, alookup]
+    split <;> simp_all
+
+theorem alookup_single {β : Type} (n k : String) (v : β) :
+    alookup n [(k, v)] = if k = n then some v else none := by
+  simp [alookup]
+
+theorem alookup_isSome_mem_akeys {β : Type} (n : String) (l : List (String × β)) :
+    (alookup n l).isSome = true → n ∈ akeys l := by
+  induction l with
+  | nil => simp [alookup]
+  | cons kv l ih =>
+    obtain ⟨k, v⟩ := kv
+    simp only [alookup, akeys, List.map_cons, List.mem_cons]
+    split
+    · intro _; left; simp_all
+    · intro h; right; exact ih h
+
+theorem alookup_none_of_not_mem {β : Type} (n : String) (l : List (String × β)) :
+    n ∉ akeys l → alookup n l = none := by
+  intro h
+  cases hl : alookup n l with
+  | none => rfl
+  | some v => exact absurd (alookup_isSome_mem_akeys n l (by simp [hl])) h
+
+theorem alookup_areplace_same {β : Type} (n : String) (v : β) (l : List (String × β))
+    (h : (alookup n l).isSome = true) : alookup n (areplace n v l) = some v := by
+  induction l with
+  | nil => simp [alookup] at h
+  | cons kv l ih =>
+    obtain ⟨k, w⟩ := kv
+    simp only [areplace]
+    by_cases hk : k = n
+    · simp [hk, alookup]
+    · simp only [hk, if_false, alookup]
+      simp only [alookup, hk, if_false] at h
+      exact ih h
+
+theorem alookup_areplace_other {β : Type} (n m : String) (v : β) (l : List (String × β)) (h : m ≠ n) :
+    alookup m (areplace n v l) = alookup m l := by
+  induction l with
+  | nil => simp [areplace, alookup]
+  | cons kv l ih =>
+    obtain ⟨k, w⟩ := kv
+    simp only [areplace]
+    by_cases hk : k = n
+    · subst hk; simp [alookup, Ne.symm h]
+    · simp only [hk, if_false, alookup, ih]
+
+theorem akeys_areplace {β : Type} (n : String) (v : β) (l : List (String × β)) :
+    akeys (areplace n v l) = akeys l := by
+  induction l with
+  | nil => rfl
+  | cons kv l ih =>
+    obtain ⟨k, w⟩ := kv
+    simp only [areplace]
+    split
+    · simp [akeys]
+    · simp only [akeys, List.map_cons] at ih ⊢; rw [ih]
+
+theorem akeys_append {β : Type} (l r : List (String × β)) : akeys (l ++ r) = akeys l ++ akeys r := by
+  simp [akeys]
+
+end EmdModel
